@@ -103,43 +103,110 @@ theorem C16_udp_nothing_starts_after (s : Udp) (hg : s.Good) (hp : s.stopPhase =
 
 /-- `Stop` can always complete: from any state in which it is waiting, letting the running
 goroutines finish (a finite number of steps) enables `stopFinish` — the wait is never circular. -/
-theorem C16_udp_stop_terminates (s : Udp) (hp : s.stopPhase = 1) (hc : s.closing = true) :
+theorem C16_udp_stop_terminates_served (s : Udp) (hp : s.stopPhase = 1) (hc : s.closing = true) (hsd : s.served = true) :
     ∃ evs s', s.run evs = some s' ∧ s'.stopPhase = 2 := by
   -- drain: serve exits, every handler returns without a post-hook, every post-hook returns
-  have drainPost : ∀ n (s : Udp), s.posthooks = n → s.handlers = 0 → s.serving = false → s.stopPhase = 1 →
+  have drainPost : ∀ n (s : Udp), s.posthooks = n → s.handlers = 0 → s.serving = false → s.stopPhase = 1 → s.served = true →
       ∃ evs s', s.run evs = some s' ∧ s'.stopPhase = 2 := by
     intro n
     induction n with
     | zero =>
-      intro s h0 hh hs hp
+      intro s h0 hh hs hp hsd
       refine ⟨[.stopFinish], { s with socketOpen := false, stopPhase := 2 }, ?_, rfl⟩
-      simp [Udp.run, Udp.step, Udp.wg, hp, h0, hh, hs]
+      simp [Udp.run, Udp.step, Udp.wg, hp, h0, hh, hs, hsd]
     | succ n ih =>
-      intro s h0 hh hs hp
-      obtain ⟨evs, s', h1, h2⟩ := ih { s with posthooks := s.posthooks - 1 } (by simp [h0]) hh hs hp
+      intro s h0 hh hs hp hsd
+      obtain ⟨evs, s', h1, h2⟩ := ih { s with posthooks := s.posthooks - 1 } (by simp [h0]) hh hs hp hsd
       refine ⟨.postDone :: evs, s', ?_, h2⟩
       have hne : ¬ s.posthooks = 0 := by omega
       simp only [Udp.run, Udp.step, hne, if_false]
       exact h1
-  have drainH : ∀ n (s : Udp), s.handlers = n → s.serving = false → s.stopPhase = 1 →
+  have drainH : ∀ n (s : Udp), s.handlers = n → s.serving = false → s.stopPhase = 1 → s.served = true →
       ∃ evs s', s.run evs = some s' ∧ s'.stopPhase = 2 := by
     intro n
     induction n with
-    | zero => intro s hh hs hp; exact drainPost s.posthooks s rfl hh hs hp
+    | zero => intro s hh hs hp hsd; exact drainPost s.posthooks s rfl hh hs hp hsd
     | succ n ih =>
-      intro s hh hs hp
-      obtain ⟨evs, s', h1, h2⟩ := ih { s with handlers := s.handlers - 1 } (by simp [hh]) hs hp
+      intro s hh hs hp hsd
+      obtain ⟨evs, s', h1, h2⟩ := ih { s with handlers := s.handlers - 1 } (by simp [hh]) hs hp hsd
       refine ⟨.handlerDone false :: evs, s', ?_, h2⟩
       have hne : ¬ s.handlers = 0 := by omega
       simp only [Udp.run, Udp.step, hne, if_false, Bool.false_eq_true]
       exact h1
   cases hsv : s.serving with
-  | false => exact drainH s.handlers s rfl hsv hp
+  | false => exact drainH s.handlers s rfl hsv hp hsd
   | true =>
-    obtain ⟨evs, s', h1, h2⟩ := drainH s.handlers { s with serving := false } rfl rfl hp
+    obtain ⟨evs, s', h1, h2⟩ := drainH s.handlers { s with serving := false } rfl rfl hp hsd
     refine ⟨.serveExit :: evs, s', ?_, h2⟩
     simp only [Udp.run, Udp.step, hsv, hc, Bool.and_self, if_true]
     rw [← hc]; exact h1
+
+/-- `Stop` can always complete: from any state in which it is waiting, letting the running
+goroutines finish (a finite number of steps) enables `stopFinish` — the wait is never circular. A serving
+goroutine that has not reached `serve()` yet gets there, finds `closing` closed and returns. -/
+theorem C16_udp_stop_terminates (s : Udp) (hp : s.stopPhase = 1) (hc : s.closing = true) :
+    ∃ evs s', s.run evs = some s' ∧ s'.stopPhase = 2 := by
+  cases hsd : s.served with
+  | true => exact C16_udp_stop_terminates_served s hp hc hsd
+  | false =>
+    obtain ⟨cl, sv, sd, hn, ph, so, sp⟩ := s
+    simp only at hp hc hsd
+    subst hc hsd
+    obtain ⟨evs, s', h1, h2⟩ := C16_udp_stop_terminates_served ⟨true, sv, true, hn, ph, so, sp⟩ hp rfl rfl
+    exact ⟨.serveStart :: evs, s', by simpa [Udp.run, Udp.step] using h1, h2⟩
+
+/-- … and the goroutine `NewFrontend` started has come and gone: it is not about to enter `serve()` (repair D19) -/
+theorem C16_udp_serving_goroutine_gone (evs : List UEv) (s : Udp) (h : ({} : Udp).run evs = some s) (hp : s.stopPhase = 2) :
+    s.served = true := by
+  have step : ∀ (s s' : Udp) (e : UEv), (s.stopPhase = 2 → s.served = true) → s.step e = some s' → (s'.stopPhase = 2 → s'.served = true) := by
+    intro s s' e hi hs
+    cases e <;> simp only [Udp.step] at hs
+    · split at hs
+      · cases hs
+      · split at hs <;> (cases hs; intro _; rfl)
+    · split at hs
+      · cases hs; exact hi
+      · cases hs
+    · split at hs
+      · cases hs
+      · cases hs; exact hi
+    · split at hs
+      · cases hs
+      · cases hs; exact hi
+    · split at hs
+      · cases hs; exact hi
+      · cases hs
+    · split at hs
+      · cases hs; intro h2; simp at h2
+      · cases hs
+    · split at hs
+      · rename_i hc
+        cases hs
+        intro _
+        have hw := hc.2
+        simp only [Udp.wg] at hw
+        cases hsv : s.served with
+        | true => rfl
+        | false => simp [hsv] at hw
+      · cases hs
+  have key : ∀ (evs : List UEv) (s0 s1 : Udp), (s0.stopPhase = 2 → s0.served = true) → s0.run evs = some s1 → (s1.stopPhase = 2 → s1.served = true) := by
+    intro evs
+    induction evs with
+    | nil => intro s0 s1 hi hr; simp only [Udp.run, Option.some.injEq] at hr; subst hr; exact hi
+    | cons e rest ih =>
+      intro s0 s1 hi hr
+      simp only [Udp.run] at hr
+      split at hr
+      · cases hr
+      · rename_i s' hs'; exact ih s' s1 (step s0 s' e hi hs') hr
+  exact key evs {} s (by intro h2; simp at h2) h hp
+
+/-- before the repair D19: `Stop` right after `NewFrontend` completes although the serving goroutine has not even
+reached `serve()` — it is still to run (observed by `life.udp_race` as one start/stop pair in 1500) -/
+theorem C16_udp_preD19_counterexample :
+    ∃ s, UdpPreD19.run {} [.stopBegin, .stopFinish] = some s ∧ s.stopPhase = 2 ∧ s.served = false ∧
+      (s.step .serveStart).isSome = true := by
+  exact ⟨_, rfl, rfl, rfl, rfl⟩
 
 /-- The protocol before the repair violates the statement: `Stop` completes while a post-response
 hook is still running (which then uses the store after it may have been stopped). -/
